@@ -71,6 +71,10 @@ fn families() -> Vec<Family> {
         // a conditional jump on a byte string (the coin's additional data): Bnz jumps on anything but the integer 0, so the
         // `pushi 1` is skipped and the covenant rejects
         f("bnz-on-bytes", vec![pi(0), LoadImm(7), Bnz(1), pi(1)]),
+        // laid out like the standard legacy signature covenant of key 0, but demanding the signature in slot 1 (the signature
+        // variants put the valid signature into slot 0: never approved) / in a slot that does not exist
+        Family { name: "legacy-shape-slot-1(K0)", bytes: { let mut ops = cov_legacy(0).to_ops(); ops[0] = pi(1); Covenant::from_ops(&ops).to_bytes() } },
+        Family { name: "legacy-shape-slot-2^64(K0)", bytes: { let mut ops = cov_legacy(0).to_ops(); ops[0] = OpCode::PushI(ethnum::U256::from(1u128 << 64)); Covenant::from_ops(&ops).to_bytes() } },
     ]
 }
 
